@@ -55,6 +55,7 @@ type Exec struct {
 	storeMaybeAll  bool
 
 	segmentlessFooter bool // a round left a footer tree without any persisted segment
+	deferred          *Violation
 }
 
 func countOps(b *BatchSpec) int {
@@ -172,6 +173,9 @@ func runCaseEx(c *Case) (out *Outcome, classes []string, err error) {
 		o.Shapes = append(o.Shapes, s)
 	}
 	sort.Strings(o.Shapes)
+	if e.viol == nil && res.Violation == nil && e.deferred != nil {
+		e.viol = e.deferred
+	}
 	if e.viol != nil {
 		o.Violation = e.viol
 	} else if res.Violation != nil {
